@@ -11,6 +11,7 @@ import (
 
 	"github.com/openconfig/gnmi/cache"
 	"github.com/openconfig/gnmi/ctree"
+	"github.com/openconfig/gnmi/subscribe"
 	"github.com/openconfig/gnmi/latency"
 	"github.com/openconfig/gnmi/metadata"
 	"google.golang.org/protobuf/proto"
@@ -264,6 +265,26 @@ func (c *caComp) Run(args []string) string {
 		return sortedBracket(c.events)
 	case "updsize":
 		c.c.UpdateSize()
+		return "ok"
+	case "serve":
+		// every stored leaf is handed to a subscriber whose updates were coalesced: the real
+		// subscribe.Server builds the response carrying the duplicate count from the stored notification.
+		// The cache is not written to: what a leaf holds is still the accepted update (an identical
+		// re-send afterwards is stale).  Found necessary by seeded change c02_seed11 (the response built
+		// on a shallow copy: the count lands in the stored notification).
+		dup, _ := strconv.Atoi(args[1])
+		srv, err := subscribe.NewServer(c.c)
+		if err != nil {
+			return "bad-op"
+		}
+		var vals []interface{}
+		c.c.Query("*", []string{"*"}, func(_ []string, _ *ctree.Leaf, v interface{}) error {
+			vals = append(vals, v)
+			return nil
+		})
+		for _, v := range vals {
+			srv.MakeSubscribeResponse(v, uint32(dup))
+		}
 		return "ok"
 	case "query":
 		var out []string
@@ -609,6 +630,9 @@ func (g *caGen) selector() int {
 		if r.Intn(3) == 0 {
 			return r.Intn(50) // single updates and deletes
 		}
+		if r.Intn(12) == 0 {
+			return 103 // the stored leaves served to a coalescing subscriber, then an identical re-send
+		}
 	case "c15":
 		// latency wiring and UpdateSize: more sync marks (so that updates arrive before and after
 		// them), refreshes, size computations, metadata-addressed updates (meta/sync true/false
@@ -651,6 +675,11 @@ func (g *caGen) step() {
 			}
 		}
 		g.notiOp(n)
+	case x == 103: // (c02) every leaf served with a duplicate count, then a notification sent before, unchanged
+		g.emit("serve %d", 1+r.Intn(5))
+		if len(g.sent) > 0 {
+			g.notiOp(g.sent[len(g.sent)-1-r.Intn(min(len(g.sent), 3))])
+		}
 	case x == 102: // (c15) same value again, later timestamp
 		var cand []gNoti
 		for _, n := range g.sent {
